@@ -5,6 +5,7 @@ import (
 	"sync"
 
 	"github.com/ajitpratap0/GoSQLX/pkg/metrics"
+	"github.com/ajitpratap0/GoSQLX/pkg/sql/keywords"
 )
 
 // bufferPool is used to reuse bytes.Buffer instances during tokenization.
@@ -111,6 +112,12 @@ func GetTokenizer() *Tokenizer {
 func PutTokenizer(t *Tokenizer) {
 	if t != nil {
 		t.Reset()
+		// A holder may have reconfigured the instance (SetDialect, NewWithKeywords):
+		// the next holder must get what the pool's New() would give.
+		if t.dialect != keywords.DialectPostgreSQL {
+			t.dialect = keywords.DialectPostgreSQL
+			t.keywords = keywords.NewKeywords()
+		}
 		tokenizerPool.Put(t)
 
 		// Record pool return
@@ -162,8 +169,7 @@ func (t *Tokenizer) Reset() {
 	// Don't reset keywords as they're constant
 	t.logger = nil
 
-	// Preserve Comments slice capacity but reset length
-	if cap(t.Comments) > 0 {
-		t.Comments = t.Comments[:0]
-	}
+	// Comments handed out by the previous run may still be held by its caller:
+	// never reuse their backing array.
+	t.Comments = nil
 }
